@@ -448,6 +448,38 @@ func checkRecovery(r *Result, rr *recordedRun, ps *PlanSpec, cut []writeRec, rc 
 			}
 		}
 	}
+	// C06 across a restart, block level (Model/Regate, fix 126bafb): a block with PreChecks whose PreChecks had durably
+	// passed but whose ContChecks had not completed their first run is gated by that run in the recovering process before
+	// any sequence that was still NotStarted at the cut is begun (sequences in flight at the cut are finished by fixBlock).
+	for bi := range ps.Blocks {
+		pg, cg := ix.group(bi, "pre"), ix.group(bi, "cont")
+		if pg < 0 || cg < 0 || d[pg].Status != "completed" || d[cg].Status == "completed" || d[cg].Status == "failed" {
+			continue
+		}
+		if bg := ix.group(bi, "bypass"); bg >= 0 && d[bg].Status == "completed" {
+			continue
+		}
+		var first int64
+		for _, q := range ix.seqsOf(bi) {
+			if d[q].Status != "notStarted" {
+				continue
+			}
+			for _, a := range ix.actionsOf(q) {
+				if len(v.enters[a]) > 0 {
+					if n := v.enters[a][0].N; first == 0 || n < first {
+						first = n
+					}
+				}
+			}
+		}
+		if first == 0 {
+			continue
+		}
+		if w := v.firstWrite(cg, "completed"); w == 0 || w > first {
+			fail("C06.recovery_block_cont_gates", map[string]any{"durableCont": d[cg].Status},
+				"after a restart a not-yet-started sequence of a block was begun although the first run of the block's ContChecks had not passed (PreChecks durably Completed)")
+		}
+	}
 	// C10: consistent terminal state
 	p := res.Final
 	if p.Status != "completed" && p.Status != "failed" {
